@@ -106,6 +106,9 @@ type fnExec struct {
 	sliceTables   map[ssa.Value]*sliceTable
 	refHeaps      map[string]bool
 	havocked      []string
+	macros        map[string]bool
+	exhaustOnly   bool
+	caseIdx       int // -1: no case split; k: verifying case k of the contract's `cases`
 }
 
 func (fx *fnExec) declare(name, sort string) {
@@ -912,7 +915,7 @@ func (fx *fnExec) mergeSV(vs []SV, conds []Term, hint string) SV {
 				panic(vcErr("merge sort mismatch %s vs %s (%s)", fls[i][k].So, fls[0][k].So, hint))
 			}
 		}
-		if strings.HasPrefix(fls[0][k].So, "(Array") {
+		if false && strings.HasPrefix(fls[0][k].So, "(Array") {
 			// arrays (heaps): a definitional ite avoids guarded array equalities, which drag the solver into extensionality
 			fx.nfresh++
 			name := fmt.Sprintf("%s!%d", san("m_"+hint), fx.nfresh)
@@ -922,6 +925,7 @@ func (fx *fnExec) mergeSV(vs []SV, conds []Term, hint string) SV {
 			}
 			fx.declared[name] = true
 			fx.decls = append(fx.decls, fmt.Sprintf("(define-fun %s () %s %s)", name, body.So, body.S))
+			fx.macros[name] = true
 			out[k] = Term{name, body.So}
 			continue
 		}
@@ -1082,6 +1086,25 @@ func (fx *fnExec) run() (err error) {
 	fx.paramEntry = map[string]SV{}
 	for i, p := range fn.Params {
 		v := fx.freshSV(p.Type(), "p_"+p.Name())
+		// case split on a boolean parameter: specialise the parameter itself, so that dead branches vanish from the VC
+		if fx.ctr != nil && fx.caseIdx >= 0 && fx.caseIdx < len(fx.ctr.Cases) {
+			switch ce := fx.ctr.Cases[fx.caseIdx].E.(type) {
+			case EIdent:
+				if ce.Name == p.Name() {
+					if sc, ok := v.(Sc); ok && sc.T.So == SBool {
+						fx.assumps = append(fx.assumps, "(assert "+sc.T.S+")")
+						v = Sc{tTrue, sc.Typ}
+					}
+				}
+			case EUn:
+				if id, ok := ce.X.(EIdent); ok && ce.Op == "!" && id.Name == p.Name() {
+					if sc, ok := v.(Sc); ok && sc.T.So == SBool {
+						fx.assumps = append(fx.assumps, "(assert (not "+sc.T.S+"))")
+						v = Sc{tFalse, sc.Typ}
+					}
+				}
+			}
+		}
 		for li, t := range flatten(v) {
 			fx.inputConsts = append(fx.inputConsts, t.S)
 			ls := fx.leaves(p.Type())
@@ -1123,6 +1146,16 @@ func (fx *fnExec) run() (err error) {
 				continue
 			}
 			fx.assume(fx.evalClause(c, env))
+		}
+		if len(fx.ctr.Cases) > 0 && fx.caseIdx >= 0 {
+			fx.assume(fx.evalBool(fx.ctr.Cases[fx.caseIdx].E, env))
+		} else if len(fx.ctr.Cases) > 0 {
+			// exhaustiveness of the case split
+			var cs []Term
+			for _, c := range fx.ctr.Cases {
+				cs = append(cs, fx.evalBool(c.E, env))
+			}
+			fx.oblige("cases:exhaustive", "post", tOr(cs...), fx.ctr.Where, "case split covers all inputs")
 		}
 		for _, c := range fx.ctr.Assumes {
 			if !c.inMode(fx.mode) {
